@@ -22,7 +22,8 @@ func (h *hmac) resetTo(key []byte) {
 	if len(key) > blocksize {
 		// If key is too big, hash it.
 		h.outer.Write(key) //nolint:errcheck,gosec
-		key = h.outer.Sum(nil)
+		// opad is zeroed and at least blocksize long: sum into it instead of allocating.
+		key = h.outer.Sum(h.opad[:0])
 	}
 	copy(h.ipad, key)
 	copy(h.opad, key)
